@@ -343,7 +343,16 @@ def run_check(prop, tier, replay=None):
     lines = [c.line for c in cases]
     impl = prop.run_impl(lines) if hasattr(prop, 'run_impl') else run_impl(lines)
     if getattr(prop, 'uses_model', True) and mok:
-        model = run_model(lines)
+        if hasattr(prop, 'model_lines'):
+            # the model is asked a question derived from the implementation's answer (e.g. position -> line/column)
+            ql = prop.model_lines(lines, impl)
+            idx = [i for i, q in enumerate(ql) if q is not None]
+            ans = run_model([ql[i] for i in idx]) if idx else []
+            model = [None] * len(lines)
+            for i, a in zip(idx, ans):
+                model[i] = a
+        else:
+            model = run_model(lines)
     else:
         model = [None] * len(lines)
     if hasattr(prop, 'post_model'):
@@ -352,7 +361,7 @@ def run_check(prop, tier, replay=None):
     # 4. compare + oracle
     mism, fails, knowns = [], [], {}
     for i, c in enumerate(cases):
-        if model[i] is not None and prop.project(impl[i]) != prop.project(model[i]):
+        if model[i] is not None and prop.project(impl[i]) != (prop.project_model(model[i]) if hasattr(prop, 'project_model') else prop.project(model[i])):
             mism.append(i)
         why = prop.oracle(c, impl[i])
         if why:
